@@ -20,10 +20,15 @@ JBatch(b) == [i \in DOMAIN b |-> [j \in DOMAIN b[i] |-> JSpend(b[i][j])]]
 Has(e, f) == f \in DOMAIN e
 Rbg2Ok(r, byte, nspends) == r.k = "ok" /\ r.byte = byte /\ r.nspends = nspends
 
+\* big tables: the linear form of the interner (unique pairs by tree hash), small ones: the explicit interner
+Big(t) == Len(t) > 48
+SizeOf(t, h, n) == IF Big(t) THEN VBytesHW(t, h, n) ELSE VBytesT(t, n)
+HashesOf(t) == IF Big(t) THEN NodeHashes(t) ELSE <<>>
+
 \* the builder fed with ONE real bundle and declared cost 0 (max = 2^31 - 11, never reached)
-MatchBundle(e, v) ==
+MatchBundle(e, h, v) ==
   LET t == e.tbl
-      est == WrapperVB + SeqX!FoldLeft(LAMBDA acc, i : acc + VBytesT(t, i) + ConsVB, 0, e.items) IN
+      est == WrapperVB + SeqX!FoldLeft(LAMBDA acc, i : acc + SizeOf(t, h, i) + ConsVB, 0, e.items) IN
   /\ (e.sb.k = "ok" => e.sb.byte = v * e.cpb)
   /\ (e.rbg2sb.k = "ok" => e.rbg2sb.byte = v * e.cpb /\ e.rbg2sb.nspends = Len(e.items))
   /\ e.bld.k = "ok" /\ e.bld.added
@@ -34,29 +39,32 @@ MatchBundle(e, v) ==
 MatchTree(e) ==
   LET t == e.tbl
       n == e.root
-      v == VBytesT(t, n)
+      h == HashesOf(t)
+      v == SizeOf(t, h, n)
       w == WrapDeadT(t, n) IN
   /\ WellFormedT(t) /\ n \in DOMAIN t
   /\ e.vb = v /\ e.vbb = v
   /\ (e.vbu # <<>> => LET x == Unfold(t, n) IN
                       /\ e.vbu[1] = v /\ v = InternedVBytes(x)
                       /\ e.serlen[1] = SerLen(x)
-                      /\ ClosedForm(x) /\ BelowTreeWeight(x) /\ SerBounds(x))
-  /\ Rbg2Ok(e.rbg2, VBytesT(w.t, w.n) * e.cpb, 0) /\ e.rbg2.cost = e.rbg2.byte + QuoteCost
-  /\ (Has(e, "items") => MatchBundle(e, v))
+                      /\ ValueLaws(x, v))
+  /\ Rbg2Ok(e.rbg2, SizeOf(w.t, HashesOf(w.t), w.n) * e.cpb, 0) /\ e.rbg2.cost = e.rbg2.byte + QuoteCost
+  /\ (Has(e, "items") => MatchBundle(e, h, v))
 
 JudgeAdd(e) ==
   LET r == AddResult(cfg, bs, JBatch(e.batch), e.declared) IN
   [ok |-> e.res = "ok" /\ e.added = r.added /\ e.done = r.done /\ e.cost = CostOf(cfg, r.b), b |-> r.b]
 
 MatchFin(e) ==
-  LET exact == ExactVB(bs.acc) IN
+  LET exact == ExactVB(bs.acc)
+      iso == SumIso(bs.acc)
+      est == WrapperVB + iso IN
   /\ e.res = "ok"
-  /\ e.cost = FinalCost(cfg, bs)                        \* finalize() interns the final tree from scratch
+  /\ e.cost = exact * cfg.cpb + bs.block               \* = FinalCost(cfg, bs): finalize() interns the final tree from scratch
   /\ e.gen_vb = exact
   /\ (e.gen # <<>> => FromJ(e.gen[1]) = GenTree(bs.acc))
   /\ (e.rbg2.k = "ok" => e.rbg2.byte = exact * cfg.cpb /\ e.rbg2.nspends = Len(bs.acc))
-  /\ EstIsSum(bs) /\ EstVB(bs.acc) >= exact + 2 * Len(bs.acc) /\ (EstVB(bs.acc) = exact <=> bs.acc = <<>>)
+  /\ bs.est = iso /\ est >= exact + 2 * Len(bs.acc) /\ (est = exact <=> bs.acc = <<>>)     \* EstIsSum, EstUpper
   /\ e.cost <= CostOf(cfg, bs) /\ e.cost <= cfg.max
 
 Init == l = 1 /\ cfg = [cpb |-> 1, max |-> 0] /\ bs = B0 /\ live = FALSE /\ MismatchInit
